@@ -2,6 +2,7 @@
 (* C16: every history of set_metrics calls over a pool of two candidate        *)
 (* variables per slot, two slots per key, two keys.  `latest` is a history      *)
 (* variable recording the last successful registration per slot.               *)
+(* (it is determined by reg, so it does not multiply the states).              *)
 EXTENDS Metrics, TLC
 CONSTANTS MaxCalls
 
@@ -11,16 +12,16 @@ KeyOf == [v \in Vars |-> IF v \in {"k1c1", "k1c2", "k1l1", "k1l2", "k1o1"} THEN 
 SlotOf == [v \in Vars |-> CASE v \in {"k1c1", "k1c2"} -> "K1c" [] v \in {"k1l1", "k1l2"} -> "K1l" [] v = "k1o1" -> "K1o"
                             [] v \in {"k2c1", "k2c2"} -> "K2c" [] v \in {"k2l1", "k2l2"} -> "K2l"]
 Slots == {"K1c", "K1l", "K1o", "K2c", "K2l"}
-\* variable lists a call may name: 1-3 variables of one key at pairwise different positions
+\* variable lists a call may name: 1-3 variables of one key at pairwise different positions, or two variables of one
+\* slot (the same variable twice included): the second then meets the slot the first has just filled
 Lists(k) == {<<v>> : v \in {x \in Vars : KeyOf[x] = k}}
-              \cup {<<v, w>> : <<v, w>> \in {t \in Vars \X Vars : KeyOf[t[1]] = k /\ KeyOf[t[2]] = k /\ SlotOf[t[1]] # SlotOf[t[2]]}}
+              \cup {<<v, w>> : <<v, w>> \in {t \in Vars \X Vars : KeyOf[t[1]] = k /\ KeyOf[t[2]] = k}}
               \cup {<<u, v, w>> : <<u, v, w>> \in {t \in Vars \X Vars \X Vars : KeyOf[t[1]] = k /\ KeyOf[t[2]] = k /\ KeyOf[t[3]] = k
                                                          /\ Cardinality({SlotOf[t[1]], SlotOf[t[2]], SlotOf[t[3]]}) = 3}}
 
-VARIABLES reg, latest, ncalls, lastRefused, prevReg, lastCall
-vars == <<reg, latest, ncalls, lastRefused, prevReg, lastCall>>
-Init == reg = [k \in Keys |-> <<>>] /\ latest = [s \in Slots |-> "none"] /\ ncalls = 0 /\ lastRefused = FALSE
-        /\ prevReg = [k \in Keys |-> <<>>] /\ lastCall = [k |-> "K1", vs |-> <<>>]
+VARIABLES reg, latest, ncalls
+vars == <<reg, latest, ncalls>>
+Init == reg = [k \in Keys |-> <<>>] /\ latest = [s \in Slots |-> "none"] /\ ncalls = 0
 
 RECURSIVE LatestAfter(_, _, _, _, _)
 LatestAfter(l, r, vs, ow, j) ==   \* history of successful registrations of this call
@@ -32,9 +33,9 @@ LatestAfter(l, r, vs, ow, j) ==   \* history of successful registrations of this
 SetMetrics(k, vs, ow) ==
   /\ ncalls < MaxCalls
   /\ LET s == SetMetricsSpec(reg, SlotOf, k, vs, ow) IN
-     /\ reg' = s.reg /\ lastRefused' = s.refused
+     /\ reg' = s.reg
      /\ latest' = LatestAfter(latest, reg, vs, ow, 1)
-  /\ prevReg' = reg /\ ncalls' = ncalls + 1 /\ lastCall' = [k |-> k, vs |-> vs]
+  /\ ncalls' = ncalls + 1
 Next == \E k \in Keys, ow \in BOOLEAN : \E vs \in Lists(k) : SetMetrics(k, vs, ow)
 Spec == Init /\ [][Next]_vars
 
@@ -42,11 +43,16 @@ SlotHoldsLatest == \A s \in Slots : \A k \in Keys :
    LET occ == Occupant(reg, SlotOf, k, s) IN
    IF latest[s] = "none" THEN occ = {} ELSE (KeyOf[latest[s]] = k => occ = {latest[s]})
 AtMostOne == OneVarPerSlot(reg, SlotOf)
-\* a refused call leaves the refused slot as it was (earlier elements of the batch may have been registered)
-RefusalKeeps == lastRefused => \E j \in DOMAIN lastCall.vs :
-   LET s == SlotOf[lastCall.vs[j]] IN
-   /\ Occupant(reg, SlotOf, lastCall.k, s) = Occupant(prevReg, SlotOf, lastCall.k, s)
-   /\ Occupant(reg, SlotOf, lastCall.k, s) # {}
+\* a refused call leaves the refused slot - and everything else - as it was when the refused element was reached
+\* (earlier elements of the batch have been registered, possibly into that very slot).  Stated over every call that
+\* could be issued in the current state, so that no history variable is needed.
+RefusalKeeps == \A k \in Keys, ow \in BOOLEAN : \A vs \in Lists(k) :
+   LET res == SetMetricsSpec(reg, SlotOf, k, vs, ow) IN
+   res.refused => \E j \in DOMAIN vs :
+      LET s == SlotOf[vs[j]]
+          pre == SetMetricsSpec(reg, SlotOf, k, SubSeq(vs, 1, j - 1), ow) IN
+      /\ ~pre.refused /\ res.reg = pre.reg /\ ~ow
+      /\ Occupant(res.reg, SlotOf, k, s) # {}
 \* batching: a two-variable call equals the two single calls
 BatchingOK == \A k \in Keys, ow \in BOOLEAN : \A vs \in Lists(k) : Len(vs) >= 2 =>
    LET one == SetMetricsSpec(reg, SlotOf, k, <<vs[1]>>, ow) IN
